@@ -1267,6 +1267,10 @@ func stateAnyCommentStart(s *Scanner, c byte) state {
 		// any symbol inline user comment
 		s.annotation = annotationNone
 		s.step = stateInlineComment
+		if bytes.IsNewLine(c) {
+			// An empty comment: the line break ends it.
+			return stateInlineComment(s, c)
+		}
 		return scanContinue
 	} else if s.index < s.dataSize && s.data[s.index] == '#' { // third #
 		s.annotation = annotationNone
